@@ -563,20 +563,19 @@ def run_icg(ctx, cases):
                 else:
                     ref = m_pre if additive else m_tab
                     tol = ztol if additive else tau
-                    if True:
-                        ctx.count("float_stream_table_comparison", "within tolerance eps + 8n*u*max|v|/|surplus|" if not additive
-                                  else "exactly additive float game: model leaves the table undivided")
-                        for i in range(size):
-                            if impl["table"][i][0] != ref[i][0]:
-                                detail = f"coalition {i} known flag"
+                    ctx.count("float_stream_table_comparison", "within tolerance eps + 8n*u*max|v|/|surplus|" if not additive
+                              else "exactly additive float game: model leaves the table undivided")
+                    for i in range(size):
+                        if impl["table"][i][0] != ref[i][0]:
+                            detail = f"coalition {i} known flag"
+                            break
+                        for col, nm in ((1, "lower"), (2, "upper")):
+                            a, b = impl["table"][i][col], float(ref[i][col])
+                            if not abs(a - b) <= tol:
+                                detail = f"coalition {i} {nm} impl={a!r} model={b!r} (tolerance {tol:.3g}, exact surplus {float(m_s)!r})"
                                 break
-                            for col, nm in ((1, "lower"), (2, "upper")):
-                                a, b = impl["table"][i][col], float(ref[i][col])
-                                if not abs(a - b) <= tol:
-                                    detail = f"coalition {i} {nm} impl={a!r} model={b!r} (tolerance {tol:.3g}, exact surplus {float(m_s)!r})"
-                                    break
-                            if detail:
-                                break
+                        if detail:
+                            break
         # round trip against the model's round trip
         if detail is None:
             for i in range(size):
